@@ -165,23 +165,23 @@ PROPS = {
 MANIFEST_TEXT = {
     "C19": {
         "technique": "generated-configuration testing: enumerated lattice of feature-macro sets x {explicit, AVEL_AUTO_DETECT} x {g++, clang++} x {C++11..20} and (thorough) Hypothesis-drawn random macro subsets shrunk to a minimal failing set; oracle = compiler/linker exit status of three generated programs (include-only, static_asserts on the documented type system, generic program over a fixed operation table that is compiled and linked)",
-        "level": "Generated-input search over build configurations: P1 includes <avel/Avel.hpp> + <avel/Aligned_allocator.hpp>; P2 static_asserts that exactly the documented widths are complete types (and neighbouring widths are not), sizeof == N*sizeof(T), trivially copyable, masks trivial, width constants, vecNx*/vecMx*/maskNx*/arrNx* alias identities, max width == widest provided, and under AUTO_DETECT the same types as naming the compiler-defined feature macros explicitly; P3 instantiates every operation of the width-1 type for every wider type of the element (incl. Denominator<V>, convert, allocator, prefetch) and must link. Each distinct error (header location, failed assertion, undefined symbol) is reported separately. The link program is built from two translation units (one definition rule) and, in the quick tier too, for every minimal macro set that selects each #if arm and for the arms only another compiler / standard selects.",
+        "level": "Generated-input search over build configurations: P1 includes <avel/Avel.hpp> + <avel/Aligned_allocator.hpp>; P2 static_asserts that exactly the documented widths are complete types (and neighbouring widths are not), sizeof == N*sizeof(T), trivially copyable, masks trivial, width constants, vecNx*/vecMx*/maskNx*/arrNx* alias identities, max width == widest provided, and under AUTO_DETECT the same types as naming the compiler-defined feature macros explicitly; P3 instantiates every operation of the width-1 type for every wider type of the element (incl. Denominator<V>, convert, allocator, prefetch) and must link. Each distinct error (header location, failed assertion, undefined symbol) is reported separately. The link program is built from two translation units (one definition rule) and, in the quick tier too, for every minimal macro set that selects each #if arm and for the arms only another compiler / standard selects. The link program also binds every reference an assigning operator returns, uses const operands on both sides of every operator and function, and the static_assert program checks the documented member aliases (rebind_width, rebind_type, scalar, mask).",
         "note": "Trusted: g++ 12 / clang++ 14 as the oracle; flags are derived from the documented implications. The operation table is hand-written from the pinned width-1 API (binary operator% on floats is not offered by width 1 and is not in it). MSVC/ICPX/ARM configurations cannot be built here.",
         "engine": "enumerator + Hypothesis (build configurations)",
     },
     "C20": {
         "technique": "property-based testing / fault injection by placement: enumerated + rapidcheck-generated prefetch calls with pointers at every cache-line offset, next to and inside PROT_NONE pages, null and misaligned, counts 0..3 pages, all cache levels, typed and untyped; signal guard + arena checksum + /proc/self/maps protection check",
-        "level": "Generated-input search over (overload, cache level, pointer placement, offset, n) for prefetch_read / prefetch_write in builds {no macro, AVEL_X86, AVEL_SSE2} x {g++, clang++} x {-O0, -O2 (+ -O1 in thorough)}: the call must return without SIGSEGV/SIGBUS/SIGILL (a fault becomes a failing Case), every byte of the accessible arena must still hold its sentinel and the kernel's view of the six arena pages' protections must be unchanged. Pointers in the first and the last cache line of the address space and builds with non-default AVEL_Ln_CACHE_LINE_SIZE values are included; the kernel's page protections are read back after every third Case.",
+        "level": "Generated-input search over (overload, cache level, pointer placement, offset, n) for prefetch_read / prefetch_write in builds {no macro, AVEL_X86, AVEL_SSE2} x {g++, clang++} x {-O0, -O2 (+ -O1 in thorough)}: the call must return without SIGSEGV/SIGBUS/SIGILL (a fault becomes a failing Case), every byte of the accessible arena must still hold its sentinel and the kernel's view of the six arena pages' protections must be unchanged. Pointers in the first and the last cache line of the address space and builds with non-default AVEL_Ln_CACHE_LINE_SIZE values are included; the kernel's page protections are read back after every third Case. A few calls use counts of 2 MiB, 16 MiB and just over 4 GiB.",
         "note": "Trusted: mmap/mprotect, /proc/self/maps, host CPU (prefetch instructions never fault architecturally), compilers. n is bounded to three pages because the loop is linear in n. AVEL_PREFETCH alone cannot be built (Verify_capabilities tests a macro no compiler defines); that is C19's finding.",
     },
     "C18": {
         "technique": "model-based (stateful) property testing: rapidcheck-generated and enumerated allocate/deallocate/fill/verify/rebind/std::vector histories on 16 Aligned_allocator<T,A> instantiations, checked after every command against a shadow map of live ranges, in the three implementations selected by the build, each also under ASan+UBSan and UBSan-trap; libFuzzer target in the thorough tier",
-        "level": "Generated-history search: histories (shrunk as one value) of allocate(n) with n biased to 0, 1, odd byte sizes and exact multiples of A, deallocation in arbitrary order, re-fill, reallocation moves, rebound allocators and std::vector growth/copy/move/swap; invariants after every command: pointer aligned to A, live ranges pairwise disjoint, every byte (including the last) of every live block still holds its pattern; every block freed exactly once with its own n. Builds: no macro C++11/14 (over-allocation), no macro C++17/20 (aligned_alloc), AVEL_SSE2 (_mm_malloc); ASan reports (overflow, invalid free, leak) kill the process inside the Case and become a violation with that history as replay; UBSan runs in trap mode so undefined behaviour is a failing, shrinkable Case. Builds include x86 configurations without any SIMD macro (AVEL_X86 only, POPCNT+LZCNT) at C++11/14.",
+        "level": "Generated-history search: histories (shrunk as one value) of allocate(n) with n biased to 0, 1, odd byte sizes and exact multiples of A, deallocation in arbitrary order, re-fill, reallocation moves, rebound allocators and std::vector growth/copy/move/swap; invariants after every command: pointer aligned to A, live ranges pairwise disjoint, every byte (including the last) of every live block still holds its pattern; every block freed exactly once with its own n. Builds: no macro C++11/14 (over-allocation), no macro C++17/20 (aligned_alloc), AVEL_SSE2 (_mm_malloc); ASan reports (overflow, invalid free, leak) kill the process inside the Case and become a violation with that history as replay; UBSan runs in trap mode so undefined behaviour is a failing, shrinkable Case. Builds include x86 configurations without any SIMD macro (AVEL_X86 only, POPCNT+LZCNT) at C++11/14. Release builds (-DNDEBUG, -O2) are included.",
         "note": "Trusted: ASan/UBSan, glibc malloc, compilers. T of size 1,2,4,8,16,64 and A from alignof(T) to 4096 are a fixed pool of 16 instantiations, not all combinations. Block sizes are capped at 4 KiB (quick) / 64 KiB (thorough). Allocation failure (nullptr from malloc) is not injected.",
     },
     "C17": {
         "technique": "property-based testing over a fixed table (snapshot of the pinned commit) of the 108 provided conversions + identities + bit_cast pairs: exhaustive 8/16-bit lane values and all mask patterns for N<=16, lattices + rapidcheck otherwise; static_cast-per-lane oracle, constructor == convert, round trip",
-        "level": "Generated-input search over (source type, destination type, form) for convert<>, the converting constructors Vector<T,N>(Vector<U,N>) / Vector_mask<T,N>(Vector_mask<U,N>), the reverse conversion of the converted value, convert<V>(V), avel::bit_cast between same-size vectors, between masks of identical representation and between scalars; masks are read back through the primitive, extract<I> and count, and a non-canonical representation after a conversion is a failure. bit_cast is also exercised between every two vector / mask types with the same primitive type and object size (bytes of the primitive compared, both directions).",
+        "level": "Generated-input search over (source type, destination type, form) for convert<>, the converting constructors Vector<T,N>(Vector<U,N>) / Vector_mask<T,N>(Vector_mask<U,N>), the reverse conversion of the converted value, convert<V>(V), avel::bit_cast between same-size vectors, between masks of identical representation and between scalars; masks are read back through the primitive, extract<I> and count, and a non-canonical representation after a conversion is a failure. bit_cast is also exercised between every two vector / mask types with the same primitive type and object size (bytes of the primitive compared, both directions). Half of the Cases run under a rounding mode / FTZ / DAZ setting derived from the Case (the results must not depend on the floating-point environment).",
         "note": "Trusted: static_cast as the lane oracle, host CPU, compilers. The table is a committed snapshot: a specialisation deleted from the tree makes the harness fail to link (reported as a broken check here and as a violation by C19), never a silently smaller test.",
     },
     "C16": {
@@ -191,77 +191,77 @@ MANIFEST_TEXT = {
     },
     "C14": {
         "technique": "property-based testing: exhaustive 8-bit (quick) / 16-bit (thorough) (n, d) pairs, per-divisor boundary numerators (multiples of d nearest the range ends +-1) over the divisor lattice + rapidcheck, __int128 division oracle + q*d+r==n, SIGFPE guard; libFuzzer target in the thorough tier",
-        "level": "Generated-input search over (n, d), d != 0, for the eight scalar Denominator<T> types and the forms div, /, %, /=, %=, value() in every configuration incl. the scalar instruction-set ladders (none/X86/POPCNT/LZCNT/BMI/BMI2 x g++/clang++ x -O1/-O2): d from {+-1, +-2^k, +-(2^k+-1), MAX, MIN, random}, n from {0, +-1, MIN, MAX, k*d and k*d+-1 at both range ends, random}; construction and use run under the signal guard. Divisors include the reciprocal family d = floor(2^k/c)+1 (c in [2^(B/2-1), 2^(B/2)), 16 000 / 120 000 per 64-bit type), and avel::div_64uhi_by_64u, the 128-by-64-bit division behind every 64-bit multiplier, is compared directly with unsigned __int128 on operands constructed so that a trial digit of the portable long division sits on its correction edge.",
+        "level": "Generated-input search over (n, d), d != 0, for the eight scalar Denominator<T> types and the forms div, /, %, /=, %=, value() in every configuration incl. the scalar instruction-set ladders (none/X86/POPCNT/LZCNT/BMI/BMI2 x g++/clang++ x -O1/-O2): d from {+-1, +-2^k, +-(2^k+-1), MAX, MIN, random}, n from {0, +-1, MIN, MAX, k*d and k*d+-1 at both range ends, random}; construction and use run under the signal guard. Divisors include the reciprocal family d = floor(2^k/c)+1 (c in [2^(B/2-1), 2^(B/2)), 16 000 / 120 000 per 64-bit type), and avel::div_64uhi_by_64u, the 128-by-64-bit division behind every 64-bit multiplier, is compared directly with unsigned __int128 on operands constructed so that a trial digit of the portable long division sits on its correction edge. Half of the Cases run under a rounding mode / FTZ / DAZ setting derived from the Case (the results must not depend on the floating-point environment).",
         "note": "Trusted: __int128 oracle, host CPU, compilers. (MIN, -1) is excluded for signed types as the property says. Exhaustive for 8-bit pairs only in the quick tier.",
     },
     "C15": {
         "technique": "property-based testing: exhaustive 8-bit (n, d) lane pairs with different divisors in different lanes, boundary numerators per divisor + rapidcheck; differential between Denominator<V>(Denominator<T>(d)), Denominator<V>(V{d}) and the __int128 quotient; SIGFPE guard",
-        "level": "Generated-input search over numerator vectors x divisor vectors (non-zero, different per lane, every divisor class visiting every lane) for div, /, %, /=, %=, value() on every integer vector type, and over every scalar divisor for the broadcast constructor (all 8-bit d exhaustively, lattice + random otherwise); the broadcast form must agree lane for lane with the vector-built denominator and with the native quotient; a missing broadcast constructor is itself a failure.",
+        "level": "Generated-input search over numerator vectors x divisor vectors (non-zero, different per lane, every divisor class visiting every lane) for div, /, %, /=, %=, value() on every integer vector type, and over every scalar divisor for the broadcast constructor (all 8-bit d exhaustively, lattice + random otherwise); the broadcast form must agree lane for lane with the vector-built denominator and with the native quotient; a missing broadcast constructor is itself a failure. Divisor vectors include blocks of equal lanes ({a,a,b,b}, one uniform block next to different lanes, a repeating period). Half of the Cases run under a rounding mode / FTZ / DAZ setting derived from the Case (the results must not depend on the floating-point environment).",
         "note": "Trusted: __int128 oracle, host CPU, compilers. MIN/-1 lanes are avoided by moving the numerator. 16-bit pairs are exhaustive only in the thorough tier.",
     },
     "C13": {
         "technique": "property-based testing: strided/exhaustive sweep of all binary32 bit patterns, stratified binary64 patterns (every exponent, both NaN kinds, both signs), special-value cross products + rapidcheck pairs, bit-field oracle cross-checked against <cmath>",
-        "level": "Generated-input search over every float vector type and the scalar overloads in every configuration: fpclassify/isnan/isinf/isfinite/isnormal/signbit on every 1019th binary32 pattern (quick) or all 2^32 (thorough) and on every binary64 exponent x mantissa boundary x sign; isgreater/isgreaterequal/isless/islessequal/islessgreater/isunordered on the special-value cross product (zeros, subnormals, infinities, quiet and signalling NaNs of both signs, adjacent values) plus random pairs. Oracle: classification from the exponent/mantissa fields (must agree with std::fpclassify, otherwise the run reports a harness error), ordered comparison on a sign-magnitude key with NaN -> false.",
+        "level": "Generated-input search over every float vector type and the scalar overloads in every configuration: fpclassify/isnan/isinf/isfinite/isnormal/signbit on every 1019th binary32 pattern (quick) or all 2^32 (thorough) and on every binary64 exponent x mantissa boundary x sign; isgreater/isgreaterequal/isless/islessequal/islessgreater/isunordered on the special-value cross product (zeros, subnormals, infinities, quiet and signalling NaNs of both signs, adjacent values) plus random pairs. Oracle: classification from the exponent/mantissa fields (must agree with std::fpclassify, otherwise the run reports a harness error), ordered comparison on a sign-magnitude key with NaN -> false. Every mask a function returns is also handed to keep / clear / blend with an all-ones and a patterned vector (whole lanes must move); float targets also run under directed rounding modes set by the driver.",
         "note": "Trusted: the bit-field oracle and glibc's fpclassify constants, host CPU, compilers. Pairs are sampled; unary predicates are exhaustive for binary32 only in the thorough tier.",
     },
     "C12": {
         "technique": "property-based testing: strided/exhaustive binary32 sweeps, value-class x exponent grids with a different exponent in every lane, special-value cross products + rapidcheck, differential against glibc (frexp/ldexp/scalbn/ilogb/logb, x-trunc(x), fdim) with a binary64 second opinion for binary32 ldexp, validity predicates for fmax/fmin",
-        "level": "Generated-input search over every float vector type and the scalar overloads in every configuration: frexp/ilogb/logb/frac on every 1021st binary32 pattern (quick) or all 2^32 (thorough) and stratified binary64; ldexp/scalbn on every value class x exponents {INT_MIN, -2^20, -400..400, 2^20, INT_MAX, boundary exponents}; fmax/fmin/fdim on the special-value cross product. frexp: significand and exponent equal to libm, zeros return themselves bit-for-bit with exponent 0, inf/NaN return themselves; ldexp/scalbn bit-equal to glibc; ilogb specials FP_ILOGB0/FP_ILOGBNAN/INT_MAX; fmax/fmin: the other operand bit-for-bit when exactly one operand is a (quiet) NaN, otherwise bit-equal to an operand and correctly ordered.",
+        "level": "Generated-input search over every float vector type and the scalar overloads in every configuration: frexp/ilogb/logb/frac on every 1021st binary32 pattern (quick) or all 2^32 (thorough) and stratified binary64; ldexp/scalbn on every value class x exponents {INT_MIN, -2^20, -400..400, 2^20, INT_MAX, boundary exponents}; fmax/fmin/fdim on the special-value cross product. frexp: significand and exponent equal to libm, zeros return themselves bit-for-bit with exponent 0, inf/NaN return themselves; ldexp/scalbn bit-equal to glibc; ilogb specials FP_ILOGB0/FP_ILOGBNAN/INT_MAX; fmax/fmin: the other operand bit-for-bit when exactly one operand is a (quiet) NaN, otherwise bit-equal to an operand and correctly ordered. The out-parameter of frexp holds garbage before the call.",
         "note": "Trusted: glibc as reference, host CPU, compilers. Accepted as open: either zero of a +-0 pair for fmax/fmin, either sign of a zero frac/fdim result, a NaN result when the NaN operand of fmax/fmin is signalling (what IEEE maxNum and glibc do), the exponent written by frexp for inf/NaN. Known findings (ldexp/scalbn emulation outside the comfortable range in the SSE2..AVX2 arms) are listed in known_findings.txt and excluded by input class.",
     },
     "C11": {
         "technique": "property-based testing: strided (quick) / exhaustive (thorough) sweep of all 2^32 binary32 patterns, stratified binary64 values and lattice + rapidcheck, differential against glibc under the same rounding mode; FP-environment invariant (MXCSR control bits, x87 control word) observed around every call and around a sample of 40 other AVEL operations under each rounding mode and FTZ/DAZ setting",
-        "level": "Generated-input search: every 1031st binary32 pattern with a seed-dependent phase (quick) or all 2^32 (thorough) for ceil/floor/trunc/round and for nearbyint/rint under each of the four rounding modes, every float vector width and the scalar overloads; binary64: every exponent x boundary mantissas, half-integers and neighbours around 2^51..2^53. Comparison: NaN->NaN; integral/infinite inputs must come back as the same number; otherwise numerically equal to libm (a differing zero sign is counted, not flagged, because the statement says 'the same number'). Environment: control state before == after, for the rounding functions and for arithmetic, comparisons, classification, frexp/ldexp/ilogb, integer div/average/etc. The six rounding functions also run with every FTZ/DAZ combination; values are compared for every lane whose input is not subnormal.",
+        "level": "Generated-input search: every 1031st binary32 pattern with a seed-dependent phase (quick) or all 2^32 (thorough) for ceil/floor/trunc/round and for nearbyint/rint under each of the four rounding modes, every float vector width and the scalar overloads; binary64: every exponent x boundary mantissas, half-integers and neighbours around 2^51..2^53. Comparison: NaN->NaN; integral/infinite inputs must come back as the same number; otherwise numerically equal to libm (a differing zero sign is counted, not flagged, because the statement says 'the same number'). Environment: control state before == after, for the rounding functions and for arithmetic, comparisons, classification, frexp/ldexp/ilogb, integer div/average/etc. The six rounding functions also run with every FTZ/DAZ combination; values are compared for every lane whose input is not subnormal. The rounding mode is also set through MXCSR only and through the x87 control word only; the environment invariant is sampled over 68 float operations and, on the integer vector types, over 40 integer operations.",
         "note": "Trusted: glibc rounding functions and fesetround as reference, host CPU, compilers honouring -frounding-math. ceil/floor/trunc/round are compared in round-to-nearest only (the statement quantifies the four modes over nearbyint/rint). With FTZ/DAZ enabled, lanes with a subnormal input are not compared.",
     },
     "C10": {
         "technique": "property-based testing: float lattice cross products + rapidcheck bit patterns x four rounding modes, differential against the scalar IEEE operation executed in a reference TU compiled without AVEL (-O0 -frounding-math), binary64 second opinion for binary32, per build configuration",
-        "level": "Generated-input search over operand pairs (every exponent x boundary mantissas, zeros, subnormals, infinities, quiet/signalling NaNs, halfway cases, random patterns) x {+,-,*,/, compound forms, ++/--, unary minus, sqrt, scalar sqrt} x 4 rounding modes on every float/double vector type incl. width 1, every configuration; results compared bit-for-bit (NaN by NaN-ness; unary minus bit-for-bit incl. NaN payload) with the hardware/glibc scalar result under the same mode; binary32 + - * / sqrt also against a binary64 recomputation rounded once (disagreement between the two oracles = harness error, not a violation); MXCSR/x87 control words compared before/after. Two-operator sequences (a*b+c, a*b-c, t*=b; t+=c) are compared with two separately rounded reference operations (a class counts the triples for which a fused multiply-add would differ), also in Clang builds that keep the compiler's floating-point defaults on FMA targets.",
+        "level": "Generated-input search over operand pairs (every exponent x boundary mantissas, zeros, subnormals, infinities, quiet/signalling NaNs, halfway cases, random patterns) x {+,-,*,/, compound forms, ++/--, unary minus, sqrt, scalar sqrt} x 4 rounding modes on every float/double vector type incl. width 1, every configuration; results compared bit-for-bit (NaN by NaN-ness; unary minus bit-for-bit incl. NaN payload) with the hardware/glibc scalar result under the same mode; binary32 + - * / sqrt also against a binary64 recomputation rounded once (disagreement between the two oracles = harness error, not a violation); MXCSR/x87 control words compared before/after. Two-operator sequences (a*b+c, a*b-c, t*=b; t+=c) are compared with two separately rounded reference operations (a class counts the triples for which a fused multiply-add would differ), also in Clang builds that keep the compiler's floating-point defaults on FMA targets. Further forms: self-aliased and chained compound assignments, ++(++x), and one operand given as a literal the optimiser can see (16 literals x 6 forms).",
         "note": "Trusted: host FPU and glibc as the IEEE reference, fesetround, compilers honouring -frounding-math. Pairs are sampled (lattice cross product + random), never exhaustive. g++ builds with the compiler's default -ffp-contract=fast are not checked for fusion across operators: that default fuses plain scalar a*b+c as well.",
     },
     "C08": {
         "technique": "property-based testing: enumerated (every n in 0..width+2 x every element offset in a 64-element window, every lane index) + rapidcheck memory operations against a byte-array memory model with sentinels, under a signal guard, per build configuration incl. -O0",
-        "level": "Generated-input search over (operation form, n, offset, payload, indices) for load/aligned_load/store/aligned_store (run-time and compile-time counts), gather/scatter (negative and positive, pairwise distinct active indices), extract<I>/insert<I>, to_array and the array constructor on all 40 vector types; oracle: loaded lanes = p[0..min(n,w)) then zeros; after a store/scatter the two-page sentinel buffer differs from its pre-image exactly in the addressed elements; faults are outcomes (an aligned-only instruction in an unaligned form shows up as SIGSEGV, -O0 builds map intrinsics literally).",
+        "level": "Generated-input search over (operation form, n, offset, payload, indices) for load/aligned_load/store/aligned_store (run-time and compile-time counts), gather/scatter (negative and positive, pairwise distinct active indices), extract<I>/insert<I>, to_array and the array constructor on all 40 vector types; oracle: loaded lanes = p[0..min(n,w)) then zeros; after a store/scatter the two-page sentinel buffer differs from its pre-image exactly in the addressed elements; faults are outcomes (an aligned-only instruction in an unaligned form shows up as SIGSEGV, -O0 builds map intrinsics literally). Four operations write / read the elements through lvalues of the element type right around a load / store inside one function, in -O2 / -O3 builds with the compilers' default strict aliasing. Half of the Cases run under a rounding mode / FTZ / DAZ setting derived from the Case (the results must not depend on the floating-point environment).",
         "note": "Trusted: the byte-array model, host CPU, compilers. Aligned forms are only given alignof(vector)-aligned addresses (documented precondition). Scatter cases with duplicate active indices are not generated (indices are made distinct by construction).",
     },
     "C09": {
         "technique": "property-based testing / fault injection by placement: the C08 operations generated with the addressed element range flush against PROT_NONE guard pages (ending at a page end, starting at a page start, n=0 with the pointer inside the guard page, wild indices in inactive gather/scatter lanes); any signal or changed sentinel outside the addressed bytes fails",
-        "level": "Generated-input search: every n in 0..width+2 for every load/store/gather/scatter form and vector type with the buffer placed against inaccessible pages on either side, plus rapidcheck payloads/indices; oracle: no SIGSEGV/SIGBUS (signal guard turns a fault into a failing Case) and all sentinel bytes outside [p, p+min(n,w)) unchanged. A partial store (all four store forms, n = 1, w/2, w-1) is also repeated while a second thread keeps rewriting and re-reading the elements behind the addressed ones (4000 rounds per Case): a store that reads and rewrites the whole block undoes one of those writes (lost update).",
+        "level": "Generated-input search: every n in 0..width+2 for every load/store/gather/scatter form and vector type with the buffer placed against inaccessible pages on either side, plus rapidcheck payloads/indices; oracle: no SIGSEGV/SIGBUS (signal guard turns a fault into a failing Case) and all sentinel bytes outside [p, p+min(n,w)) unchanged. A partial store (all four store forms, n = 1, w/2, w-1) is also repeated while a second thread keeps rewriting and re-reading the elements behind the addressed ones (4000 rounds per Case): a store that reads and rewrites the whole block undoes one of those writes (lost update). Half of the Cases run under a rounding mode / FTZ / DAZ setting derived from the Case (the results must not depend on the floating-point environment).",
         "note": "Trusted: mmap/mprotect guard pages, host CPU fault behaviour (what this CPU does for masked instructions), compilers. Over-reads that stay inside the same page as addressed bytes (e.g. a full aligned load for aligned_load(p,3)) cannot fault and are not observable by this check; over-writes always are. The concurrent-writer operation has no false-alarm path but its detection depends on the interleaving of two threads, which the harness does not control; such failures are reported on first observation (no minimisation, no re-confirmation).",
     },
     "C03": {
         "technique": "model-based (stateful) property testing: rapidcheck-generated and enumerated command histories over four mask registers, compared with an array<bool,N> model through every observer after every command; histories shrink as one value",
-        "level": "Generated-history search: 16 commands (& | ^ && || &= |= ^= ! insert<I> Mask(bool) Mask(array) =bool Mask(Vector(m)) set_bits(m)!=0 Mask(vector of special lanes)) on all 40 mask types in every configuration; after every command every register is read through primitive decode, extract<I> for all I, count/any/all/none, ==/!= against every register, Vector(mask), set_bits(mask). Enumerated: all 2^N patterns for N<=16 with insert<I>(m,false/true), every special lane value (-0.0, NaN, subnormal, single non-zero byte ...) in every lane for mask(vector).",
+        "level": "Generated-history search: 16 commands (& | ^ && || &= |= ^= ! insert<I> Mask(bool) Mask(array) =bool Mask(Vector(m)) set_bits(m)!=0 Mask(vector of special lanes)) on all 40 mask types in every configuration; after every command every register is read through primitive decode, extract<I> for all I, count/any/all/none, ==/!= against every register, Vector(mask), set_bits(mask). Enumerated: all 2^N patterns for N<=16 with insert<I>(m,false/true), every special lane value (-0.0, NaN, subnormal, single non-zero byte ...) in every lane for mask(vector). Half of the Cases run under a rounding mode / FTZ / DAZ setting derived from the Case (the results must not depend on the floating-point environment).",
         "note": "Trusted: the boolean-array model, host CPU, compilers. N=32/64 patterns are structured + random, not exhaustive. Non-canonical representations are counted and are violations only when an observer disagrees with the model.",
     },
     "C05": {
         "technique": "property-based testing: enumerated (all 8-bit pairs, lattice cross products, quotient-length classes; all 16-bit pairs in thorough) + rapidcheck (dividend, divisor) vectors with zero-divisor and MIN/-1 lanes injected into other lanes, __int128 division oracle + q*y+r==x relation, signal guard, per build configuration",
-        "level": "Generated-input search over (dividend, divisor) lanes for div, /, %, /=, %= on every integer vector type in every configuration; zero divisors (and MIN/-1) are placed in rotating subsets of the other lanes of wide vectors, executed under a SIGFPE/SIGSEGV guard and not compared, so both 'no trap' and 'no disturbance of other lanes' are observed; quotient-length classes drive every early-exit stage of the shift-subtract emulations.",
+        "level": "Generated-input search over (dividend, divisor) lanes for div, /, %, /=, %= on every integer vector type in every configuration; zero divisors (and MIN/-1) are placed in rotating subsets of the other lanes of wide vectors, executed under a SIGFPE/SIGSEGV guard and not compared, so both 'no trap' and 'no disturbance of other lanes' are observed; quotient-length classes drive every early-exit stage of the shift-subtract emulations. Usage forms are generated as well: the same object on both sides of an operator (x op= x, x = x op x) and the reference returned by an assigning operator used as an lvalue ((x op= y) op= z), against the composed scalar reference. Half of the Cases run under a rounding mode / FTZ / DAZ setting derived from the Case (the results must not depend on the floating-point environment). Lane fills include blocks of equal lanes ({a,a,b,b}, one uniform half).",
         "note": "Trusted: __int128 division oracle, host CPU, compilers. Width-1 vectors never receive a zero divisor or MIN/-1. A trap while a MIN/-1 lane is present is tolerated (the property excepts that lane and says nothing about it trapping). Exhaustive only for 8-bit (quick) / 16-bit (thorough) pairs.",
     },
     "C07": {
         "technique": "property-based testing: enumerated (all 8-bit pairs, all 2^W masks for W<=16, lattice cross products; all 16-bit pairs in thorough) + rapidcheck operands and masks against exact integer / bit-pattern oracles and validity predicates, per build configuration",
-        "level": "Generated-input search over masks x operand values for blend/keep/clear/min/max/minmax/clamp/abs/neg_abs/negate/average/midpoint/copysign, vector forms on all 40 types and the scalar overloads, in every configuration of the arm cover (quick) / lattice (thorough); integer oracles in __int128 (average = truncation of the exact sum halved, midpoint = a + trunc((b-a)/2)); float sign operations compared bit-for-bit incl. zeros, infinities, NaN payloads; float min/max/clamp by a validity predicate (bit-equal to an operand, numerically the right one, either zero accepted).",
+        "level": "Generated-input search over masks x operand values for blend/keep/clear/min/max/minmax/clamp/abs/neg_abs/negate/average/midpoint/copysign, vector forms on all 40 types and the scalar overloads, in every configuration of the arm cover (quick) / lattice (thorough); integer oracles in __int128 (average = truncation of the exact sum halved, midpoint = a + trunc((b-a)/2)); float sign operations compared bit-for-bit incl. zeros, infinities, NaN payloads; float min/max/clamp by a validity predicate (bit-equal to an operand, numerically the right one, either zero accepted). The masks of blend / keep / clear / negate reach the operation through seven producers (primitive, comparison, std::array<bool>, insert<I> chains, Mask(vector), the type's sign test). Half of the Cases run under a rounding mode / FTZ / DAZ setting derived from the Case (the results must not depend on the floating-point environment).",
         "note": "Trusted: harness oracles, host CPU, compilers. Not compared: clamp lanes with lo == hi (lo/hi are ordered by the harness first), float min/max/clamp lanes with a NaN, and neg_abs of unsigned lanes >= 2^(bits-1) (AVEL reinterprets them as signed; the property does not fix the reading).",
     },
     "C06": {
         "technique": "property-based testing: exhaustive 8/16-bit (quick) and 32-bit (thorough) element values, structured 64-bit patterns + rapidcheck, naive bit-loop oracle, constant-operand vs run-time differential, per build configuration and scalar instruction set",
-        "level": "Generated-input search over every element value (8/16-bit exhaustive; 32-bit exhaustive in thorough; 64-bit single/two-bit/mask patterns, neighbours, complements + random) for each of the 11 bit functions a type provides (SFINAE probe), vector lanes and scalar overloads, in every configuration of the arm cover plus the scalar ladders {none,X86,POPCNT,LZCNT,BMI,BMI2} x {g++,clang++} x {-O1,-O2}; oracle = naive bit loops; relations popcount(x)+popcount(~x)==bits, byteswap involution, countl_zero+bit_width==bits; constant-operand phase makes latent UB observable as a wrong value.",
+        "level": "Generated-input search over every element value (8/16-bit exhaustive; 32-bit exhaustive in thorough; 64-bit single/two-bit/mask patterns, neighbours, complements + random) for each of the 11 bit functions a type provides (SFINAE probe), vector lanes and scalar overloads, in every configuration of the arm cover plus the scalar ladders {none,X86,POPCNT,LZCNT,BMI,BMI2} x {g++,clang++} x {-O1,-O2}; oracle = naive bit loops; relations popcount(x)+popcount(~x)==bits, byteswap involution, countl_zero+bit_width==bits; constant-operand phase makes latent UB observable as a wrong value. Half of the Cases run under a rounding mode / FTZ / DAZ setting derived from the Case (the results must not depend on the floating-point environment).",
         "note": "Trusted: the bit-loop oracle, host CPU, compilers. Signed bit_floor/bit_ceil of negative lanes are documented undefined and not compared. A function a type does not provide is skipped here and is C19's business.",
     },
     "C04": {
         "technique": "property-based testing: enumerated values x every amount 0..bits / rotation amounts (all 8-bit values quick, all 16-bit thorough) + rapidcheck, bit-level shift/rotate oracle and metamorphic relations, per build configuration",
-        "level": "Generated-input search over lane values x amounts for 25 operation forms (bitwise, shifts by scalar / per-lane vector / compile-time amount, rotations by scalar / per-lane / compile-time amount incl. negative and beyond-width amounts, scalar rotl/rotr) on every integer vector type and configuration; per-lane forms carry a different amount in every lane with all amounts visiting all lanes; oracle = shifts on the unsigned image with explicit full-width and sign-fill cases; relations rotl(rotr(x,s),s)==x, (x<<k)>>k==x&lowmask, x<<bits==0; UBSan trap mode on the width-1/scalar forms ('is defined' for 0..bits).",
+        "level": "Generated-input search over lane values x amounts for 25 operation forms (bitwise, shifts by scalar / per-lane vector / compile-time amount, rotations by scalar / per-lane / compile-time amount incl. negative and beyond-width amounts, scalar rotl/rotr) on every integer vector type and configuration; per-lane forms carry a different amount in every lane with all amounts visiting all lanes; oracle = shifts on the unsigned image with explicit full-width and sign-fill cases; relations rotl(rotr(x,s),s)==x, (x<<k)>>k==x&lowmask, x<<bits==0; UBSan trap mode on the width-1/scalar forms ('is defined' for 0..bits). Usage forms are generated as well: the same object on both sides of an operator (x op= x, x = x op x) and the reference returned by an assigning operator used as an lvalue ((x op= y) op= z), against the composed scalar reference. Half of the Cases run under a rounding mode / FTZ / DAZ setting derived from the Case (the results must not depend on the floating-point environment).",
         "note": "Trusted: harness oracle, host CPU, compilers. Exhaustive for 8-bit (quick) and 16-bit (thorough) values x all amounts; 32/64-bit values from the boundary lattice + random. Shift amounts outside 0..bits are documented as unspecified and are not generated for shifts.",
     },
     "C01": {
         "technique": "property-based testing: enumerated (all 8-bit pairs, lattice cross products; all 16-bit pairs in thorough) + rapidcheck operand pairs against modular-arithmetic oracle and metamorphic relations, per build configuration; UBSan trap mode turns undefined behaviour into a failing Case",
-        "level": "Generated-input search over operand pairs x 11 operator forms x every integer vector type x every configuration of the #if-arm cover (quick) / macro lattice x compilers x standards (thorough); oracle = arithmetic modulo 2^bits on wider unsigned types plus relations ((a+b)-b==a, a*b==b*a, a*2^k==a<<k, -a==0-a); lane independence by heterogeneous neighbours and one-hot lanes; 'never undefined' by clang/gcc -fsanitize=undefined in trap mode on the width-1 code; cross-configuration output digests must agree.",
+        "level": "Generated-input search over operand pairs x 11 operator forms x every integer vector type x every configuration of the #if-arm cover (quick) / macro lattice x compilers x standards (thorough); oracle = arithmetic modulo 2^bits on wider unsigned types plus relations ((a+b)-b==a, a*b==b*a, a*2^k==a<<k, -a==0-a); lane independence by heterogeneous neighbours and one-hot lanes; 'never undefined' by clang/gcc -fsanitize=undefined in trap mode on the width-1 code; cross-configuration output digests must agree. Usage forms are generated as well: the same object on both sides of an operator (x op= x, x = x op x) and the reference returned by an assigning operator used as an lvalue ((x op= y) op= z), against the composed scalar reference. Half of the Cases run under a rounding mode / FTZ / DAZ setting derived from the Case (the results must not depend on the floating-point environment).",
         "note": "Trusted: harness oracle (unsigned __int128 arithmetic), host CPU, compilers. Exhaustive only for 8-bit pairs (quick) and 16-bit pairs (thorough); 32/64-bit pairs are lattice cross products + random. AVEL has no scalar + - * overloads, so the 'scalar overloads agree' clause reduces to C++ unsigned arithmetic, which is the oracle.",
     },
     "C02": {
         "technique": "property-based testing: rapidcheck-generated + enumerated operand pairs against a bit-level comparison oracle, per build configuration",
-        "level": "Generated-input search: all 8-bit pairs and the full boundary-lattice cross product (32/64-bit, floats incl. NaN/inf/zero/subnormal) in every lane position, plus rapidcheck random/derived pairs, for all six operators on every vector type of every configuration in the #if-arm cover (quick) or the full macro lattice x compilers x standards (thorough). Oracle decides truth from bit patterns without FP instructions; mask read through primitive, extract<I>, count/any/all/none and Vector(mask).",
+        "level": "Generated-input search: all 8-bit pairs and the full boundary-lattice cross product (32/64-bit, floats incl. NaN/inf/zero/subnormal) in every lane position, plus rapidcheck random/derived pairs, for all six operators on every vector type of every configuration in the #if-arm cover (quick) or the full macro lattice x compilers x standards (thorough). Oracle decides truth from bit patterns without FP instructions; mask read through primitive, extract<I>, count/any/all/none and Vector(mask). Every comparison mask is also handed to keep / clear / blend with an all-ones and a patterned vector (whole lanes must move). Half of the Cases run under a rounding mode / FTZ / DAZ setting derived from the Case (the results must not depend on the floating-point environment).",
         "note": "Trusted: the harness's bit-level comparison oracle, the host CPU, g++/clang++. Absence is shown only for the enumerated finite sub-domains; 32/64-bit and float pairs are sampled (lattice cross product + random).",
     },
 }
